@@ -1,5 +1,6 @@
 import OhkamiModel.M.ResponseProofs
 import OhkamiModel.M.ResponseWire
+import OhkamiModel.M.Framing
 /-! # C03 — property theorems (statements only; the proofs are in OhkamiModel/M/ResponseProofs.lean) -/
 namespace C03
 open Ohkami Ohkami.Response
@@ -43,5 +44,34 @@ theorem framing (c : Cfg) (ok : c.OK) (status : Nat) (date : Bytes) (ops : List 
     (status ≠ 204 → ∀ b, r.body = some b → r.headers.std.get c.kCL = some (dec b.length)) ∧
     (status ≠ 204 → r.body = none → mayHaveNoLength status = false → r.headers.std.get c.kCL = some zero) :=
   Response.framing c ok status date ops hk hl
+
+/-! ### framing for every content kind (payload, none, event stream), GET and HEAD: the automaton `Ohkami.Framing` over the body operations of the public API -/
+
+/-- **Never both**: whatever the sequence of body operations (`set_text` / `set_html` / `set_json` / `set_payload`, `drop_content`, `set_stream`), the status
+and the method, the completed response does not carry `Content-Length` beside `Transfer-Encoding: chunked` (RFC 9112 6.2) -/
+theorem never_both (status : Nat) (ops : List Ohkami.Framing.Op) (head : Bool) :
+    ¬ ((Ohkami.Framing.build status ops head).cl.isSome = true ∧ (Ohkami.Framing.build status ops head).te = true) :=
+  Ohkami.Framing.never_both status ops head
+
+/-- **204**: no content, no `Content-Length`, no `Transfer-Encoding`, for every history, GET and HEAD -/
+theorem no_content_204 (ops : List Ohkami.Framing.Op) (head : Bool) :
+    (Ohkami.Framing.build 204 ops head).content = .none ∧ (Ohkami.Framing.build 204 ops head).cl = none ∧ (Ohkami.Framing.build 204 ops head).te = false :=
+  Ohkami.Framing.no_content_204 ops head
+
+/-- **The content that is sent is the content that is announced**: an event stream goes out chunked without a declared length, a payload under its own
+length and not chunked — also when one replaced the other any number of times -/
+theorem content_announced (status : Nat) (ops : List Ohkami.Framing.Op) (h204 : status ≠ 204) :
+    ((Ohkami.Framing.build status ops false).content = .stream → (Ohkami.Framing.build status ops false).te = true ∧ (Ohkami.Framing.build status ops false).cl = none) ∧
+    (∀ n, (Ohkami.Framing.build status ops false).content = .payload n → (Ohkami.Framing.build status ops false).cl = some n ∧ (Ohkami.Framing.build status ops false).te = false) :=
+  Ohkami.Framing.content_announced status ops h204
+
+/-- **The client can determine the end of the message**: a declared length or the chunked coding, unless the status never has content (1xx, 204, 304) -/
+theorem end_determinable (status : Nat) (ops : List Ohkami.Framing.Op) :
+    (Ohkami.Framing.build status ops false).cl.isSome = true ∨ (Ohkami.Framing.build status ops false).te = true ∨ status = 204 ∨ Ohkami.Framing.noLengthStatus status = true :=
+  Ohkami.Framing.end_determinable status ops
+
+/-- a history in which a stream is replaced, dropped and set again (the histories repaired by 425e3ae and 75d3d56) -/
+example : Ohkami.Framing.build 200 [.stream, .payload 5, .drop, .stream, .stream] false = ⟨200, .stream, none, true⟩ ∧
+    Ohkami.Framing.build 200 [.stream, .payload 5] true = ⟨200, .none, some 5, false⟩ := by decide
 
 end C03
